@@ -4,6 +4,13 @@
   collection.py               simple_collection -> src_collect (the single statement `pixel op= charge`)
   full_well.py                apply_simple_full_well_capacity -> src_full_well (`array[array > fwc] = fwc`)
   photoelectrons.py           apply_qe        -> src_qe_off (the expression of the non-sampling branch)
+  full_well.py                simple_full_well -> src_fw_select (which of argument / characteristics gives the
+                                                 capacity), src_fw_raises (the `if capacity < 0: raise` guard)
+  photoelectrons.py           simple_conversion -> src_qe_select (argument / characteristics), src_qe_range (the
+                                                 `if not 0 <= qe <= 1: raise` guard)
+  photoelectrons.py           conversion_with_qe_map -> src_qe_map_range (the per-pixel range check of the map)
+  cdm.py                      cdm             -> src_cdm_fwc_select (argument / characteristics), src_cdm_guard (the
+                                                 range checks on volume, beta, capacity, period, as one bool)
 """
 from __future__ import annotations
 
@@ -188,8 +195,261 @@ def tr_qe(repo: Path) -> str:
     return f"Definition src_qe_off (q p : Q) : Q := {e}.\n"
 
 
+# ---------------------------------------------------------------------------------------------- value sources
+# `param` (a model argument, None when absent) against `detector.characteristics.<attr>` (raises when absent).
+# Accepted statement shapes for the selection of the value bound to a local name:
+#     if param is None: v = <src> else: v = <src>          (either polarity, `is not None` too)
+#     v = <src> if param is [not] None else <src>
+#     v = param or <src>                                   (truthiness: 0.0 counts as absent - translated as such)
+#  each assignment, or the whole statement, may sit in `try: ... except ...: raise ...` (handlers only re-raise).
+# The result is a Gallina term of type option Q over `arg char : option Q` (None = raises / unusable).
+
+
+def _src_term(node: ast.AST, param: str, char_attr: str, bound_some: bool) -> str:
+    """value of a source expression where `param` is known to be Some a (bound_some) or None"""
+    s = ast.unparse(node)
+    if s == param:
+        return "Some a" if bound_some else "None"
+    if s == f"detector.characteristics.{char_attr}":
+        return "char"
+    fail(node, f"value source not accepted (only `{param}` or detector.characteristics.{char_attr})")
+
+
+def _only_reraise(tr: ast.Try) -> bool:
+    return (not tr.orelse and not tr.finalbody and tr.handlers
+            and all(h.body and isinstance(h.body[-1], ast.Raise) and len(h.body) == 1 for h in tr.handlers))
+
+
+def _unwrap_try(st: ast.stmt) -> ast.stmt:
+    if isinstance(st, ast.Try):
+        if not (_only_reraise(st) and len(st.body) == 1):
+            fail(st, "try block around a value selection must hold one statement and only re-raise")
+        return _unwrap_try(st.body[0])
+    return st
+
+
+def _is_none_test(test: ast.AST, param: str):
+    """-> True if the test is `param is None`, False if `param is not None`, else fail"""
+    if (isinstance(test, ast.Compare) and len(test.ops) == 1 and ast.unparse(test.left) == param
+            and isinstance(test.comparators[0], ast.Constant) and test.comparators[0].value is None):
+        if isinstance(test.ops[0], ast.Is):
+            return True
+        if isinstance(test.ops[0], ast.IsNot):
+            return False
+    fail(test, f"selection test must be `{param} is None` or `{param} is not None`")
+
+
+def select_stmt(st: ast.stmt, param: str, char_attr: str):
+    """-> (local variable name, Gallina term over arg/char)"""
+    st = _unwrap_try(st)
+    if isinstance(st, ast.If):
+        none_first = _is_none_test(st.test, param)
+        if len(st.body) != 1 or len(st.orelse) != 1:
+            fail(st, "each branch of the selection must be one assignment")
+        b1, b2 = _unwrap_try(st.body[0]), _unwrap_try(st.orelse[0])
+        for b in (b1, b2):
+            if not (isinstance(b, (ast.Assign, ast.AnnAssign))):
+                fail(b, "branch of the selection must be an assignment")
+        names = set()
+        vals = []
+        for b in (b1, b2):
+            tgt = b.targets[0] if isinstance(b, ast.Assign) else b.target
+            if isinstance(b, ast.Assign) and len(b.targets) != 1 or not isinstance(tgt, ast.Name) or b.value is None:
+                fail(b, "branch must assign one local name")
+            names.add(tgt.id)
+            vals.append(b.value)
+        if len(names) != 1:
+            fail(st, "both branches must assign the same name")
+        v_none, v_some = (vals[0], vals[1]) if none_first else (vals[1], vals[0])
+        t_none = _src_term(v_none, param, char_attr, False)
+        t_some = _src_term(v_some, param, char_attr, True)
+        return names.pop(), f"match arg with None => {t_none} | Some a => {t_some} end"
+    if isinstance(st, (ast.Assign, ast.AnnAssign)):
+        tgt = st.targets[0] if isinstance(st, ast.Assign) else st.target
+        if isinstance(st, ast.Assign) and len(st.targets) != 1 or not isinstance(tgt, ast.Name) or st.value is None:
+            fail(st, "selection must assign one local name")
+        v = st.value
+        if isinstance(v, ast.IfExp):
+            none_first = _is_none_test(v.test, param)
+            v_none, v_some = (v.body, v.orelse) if none_first else (v.orelse, v.body)
+            return tgt.id, (f"match arg with None => {_src_term(v_none, param, char_attr, False)} "
+                            f"| Some a => {_src_term(v_some, param, char_attr, True)} end")
+        if isinstance(v, ast.BoolOp) and isinstance(v.op, ast.Or) and len(v.values) == 2 \
+                and ast.unparse(v.values[0]) == param:
+            other = _src_term(v.values[1], param, char_attr, False)
+            return tgt.id, f"match arg with None => {other} | Some a => if Qeq_bool a 0 then {other} else Some a end"
+        fail(v, "selection expression not accepted")
+    fail(st, "statement is not a value selection")
+
+
+def _raise_guard(st: ast.stmt) -> ast.AST:
+    if not (isinstance(st, ast.If) and not st.orelse and len(st.body) == 1 and isinstance(st.body[0], ast.Raise)):
+        fail(st, "expected `if <test>: raise ...`")
+    return st.test
+
+
+def _pos_guard(test: ast.AST, names: dict) -> str:
+    """`a < b` / `a <= b` chain (no `not`): bool term that is true when the code RAISES"""
+    if not isinstance(test, ast.Compare):
+        fail(test, "guard must be a comparison")
+    terms, left = [], test.left
+    for op, right in zip(test.ops, test.comparators):
+        l, r = expr(left, names), expr(right, names)
+        if isinstance(op, ast.Lt):
+            terms.append(f"Qltb {l} {r}")
+        elif isinstance(op, ast.LtE):
+            terms.append(f"Qle_bool {l} {r}")
+        elif isinstance(op, ast.Gt):
+            terms.append(f"Qltb {r} {l}")
+        elif isinstance(op, ast.GtE):
+            terms.append(f"Qle_bool {r} {l}")
+        else:
+            fail(test, "only < <= > >= accepted in a guard")
+        left = right
+    return " && ".join(terms)
+
+
+def tr_fw_sources(repo: Path) -> str:
+    tree = parse(repo, "pyxel/models/charge_collection/full_well.py")
+    fn = find_func(tree, "simple_full_well")
+    if [a.arg for a in fn.args.args] != ["detector", "fwc"]:
+        fail(fn, "simple_full_well signature")
+    body = body_no_doc(fn)
+    if len(body) < 3:
+        fail(fn, "simple_full_well: expected selection, guard, application")
+    var, sel = select_stmt(body[0], "fwc", "full_well_capacity")
+    guards = []
+    k = 1
+    while k < len(body) and isinstance(body[k], ast.If):
+        guards.append(_pos_guard(_raise_guard(body[k]), {var: "c"}))
+        k += 1
+    rest = body[k:]
+    call_s = f"apply_simple_full_well_capacity(array=detector.pixel.array, fwc={var})"
+    ok = False
+    if len(rest) == 1 and isinstance(rest[0], ast.Assign):
+        ok = (ast.unparse(rest[0].targets[0]) == "detector.pixel.array" and ast.unparse(rest[0].value) == call_s)
+    elif len(rest) == 2 and all(isinstance(r, ast.Assign) for r in rest):
+        tmp = ast.unparse(rest[0].targets[0])
+        ok = (isinstance(rest[0].targets[0], ast.Name) and ast.unparse(rest[0].value) == call_s
+              and ast.unparse(rest[1].targets[0]) == "detector.pixel.array" and ast.unparse(rest[1].value) == tmp)
+    if not ok:
+        fail(rest[0] if rest else fn, f"after the guards expected detector.pixel.array = {call_s}")
+    g = " || ".join(f"({x})" for x in guards) if guards else "false"
+    return (f"Definition src_fw_select (arg char : option Q) : option Q := {sel}.\n"
+            f"Definition src_fw_raises (c : Q) : bool := {g}.\n")
+
+
+def tr_qe_sources(repo: Path) -> str:
+    tree = parse(repo, "pyxel/models/charge_generation/photoelectrons.py")
+    fn = find_func(tree, "simple_conversion")
+    if [a.arg for a in fn.args.args] != ["detector", "quantum_efficiency", "seed", "binomial_sampling"]:
+        fail(fn, "simple_conversion signature")
+    body = body_no_doc(fn)
+    if len(body) < 3:
+        fail(fn, "simple_conversion: expected selection, range guard, conversion")
+    var, sel = select_stmt(body[0], "quantum_efficiency", "quantum_efficiency")
+    rng = guard(_raise_guard(body[1]), {var: "q"})          # `if not 0 <= q <= 1: raise`
+    # the selected value is what apply_qe receives, with the caller's sampling flag, inside the seed bracket
+    calls = [n for st in body[2:] for n in ast.walk(st)
+             if isinstance(n, ast.Call) and ast.unparse(n.func) == "apply_qe"]
+    if len(calls) != 1 or calls[0].args:
+        fail(fn, "simple_conversion must call apply_qe once, with keywords")
+    kw = {k.arg: ast.unparse(k.value) for k in calls[0].keywords}
+    if kw.get("qe") != var or kw.get("binomial_sampling") != "binomial_sampling" or set(kw) != {"array", "qe", "binomial_sampling"}:
+        fail(calls[0], f"apply_qe must receive qe={var} and binomial_sampling=binomial_sampling")
+    for st in body[2:]:
+        for n in ast.walk(st):
+            if isinstance(n, (ast.Assign, ast.AugAssign, ast.AnnAssign)):
+                tg = n.targets if isinstance(n, ast.Assign) else [n.target]
+                if any(isinstance(t, ast.Name) and t.id == var for t in tg):
+                    fail(n, "the selected efficiency is rebound after the range check")
+    return (f"Definition src_qe_select (arg char : option Q) : option Q := {sel}.\n"
+            f"Definition src_qe_range (q : Q) : bool := {rng}.\n")
+
+
+def tr_qe_map(repo: Path) -> str:
+    tree = parse(repo, "pyxel/models/charge_generation/photoelectrons.py")
+    fn = find_func(tree, "conversion_with_qe_map")
+    body = body_no_doc(fn)
+    # `if not np.all(<elementwise test on qe>): raise`, elementwise test = conjunction (&) of comparisons of qe with numbers
+    gs = [st for st in body if isinstance(st, ast.If) and "qe" in {n.id for n in ast.walk(st.test) if isinstance(n, ast.Name)}]
+    if len(gs) != 1:
+        fail(fn, "conversion_with_qe_map: expected one range check of the map")
+    test = _raise_guard(gs[0])
+    if not (isinstance(test, ast.UnaryOp) and isinstance(test.op, ast.Not) and isinstance(test.operand, ast.Call)
+            and ast.unparse(test.operand.func) == "np.all" and len(test.operand.args) == 1 and not test.operand.keywords):
+        fail(test, "range check must be `if not np.all(<test>): raise`")
+
+    def elem(node):
+        if isinstance(node, ast.BinOp) and isinstance(node.op, ast.BitAnd):
+            return f"{elem(node.left)} && {elem(node.right)}"
+        if isinstance(node, ast.Compare):
+            return f"({_pos_guard(node, {'qe': 'q'})})"
+        fail(node, "elementwise range test shape not accepted")
+
+    rng = elem(test.operand.args[0])
+    calls = [n for st in body for n in ast.walk(st) if isinstance(n, ast.Call) and ast.unparse(n.func) == "apply_qe"]
+    if len(calls) != 1 or calls[0].args:
+        fail(fn, "conversion_with_qe_map must call apply_qe once, with keywords")
+    kw = {k.arg: ast.unparse(k.value) for k in calls[0].keywords}
+    if kw != {"array": "detector.photon.array", "qe": "qe", "binomial_sampling": "binomial_sampling"}:
+        fail(calls[0], "apply_qe must receive the photon array, the checked map and the sampling flag")
+    if body.index(gs[0]) > min(i for i, st in enumerate(body) if calls[0] in list(ast.walk(st))):
+        fail(gs[0], "the range check must precede the conversion")
+    for st in body[body.index(gs[0]):]:
+        for n in ast.walk(st):
+            if isinstance(n, (ast.Assign, ast.AugAssign, ast.AnnAssign)):
+                tg = n.targets if isinstance(n, ast.Assign) else [n.target]
+                if any(isinstance(t, ast.Name) and t.id == "qe" for t in tg):
+                    fail(n, "the efficiency map is rebound after the range check")
+    return f"Definition src_qe_map_range (q : Q) : bool := {rng}.\n"
+
+
+def tr_cdm_guard(repo: Path) -> str:
+    tree = parse(repo, "pyxel/models/charge_transfer/cdm.py")
+    fn = find_func(tree, "cdm")
+    body = body_no_doc(fn)
+    sel = [st for st in body if isinstance(st, (ast.If, ast.Assign, ast.AnnAssign, ast.Try))
+           and any(isinstance(n, ast.Name) and n.id == "full_well_capacity" for n in ast.walk(st))
+           and not any(isinstance(n, ast.Call) and ast.unparse(n.func).startswith("run_cdm") for n in ast.walk(st))]
+    if len(sel) != 1:
+        fail(fn, "cdm: expected one statement selecting the capacity from `full_well_capacity` / the characteristics")
+    var, sel_t = select_stmt(sel[0], "full_well_capacity", "full_well_capacity")
+    names = {"max_electron_volume": "vg", "beta": "beta", var: "fwc", "transfer_period": "t"}
+    guards, seen = [], set()
+    for st in body:
+        if not (isinstance(st, ast.If) and isinstance(st.test, ast.UnaryOp) and isinstance(st.test.op, ast.Not)
+                and isinstance(st.test.operand, ast.Compare)):
+            continue
+        used = {n.id for n in ast.walk(st.test) if isinstance(n, ast.Name)}
+        if not used or not used <= set(names):
+            continue                                  # isinstance / len checks: not range checks
+        _raise_guard(st)
+        guards.append(guard(st.test, names))
+        seen |= used
+    for st in body:                                   # the checked values are the ones handed to the numba functions
+        for n in ast.walk(st):
+            if isinstance(n, (ast.Assign, ast.AugAssign, ast.AnnAssign)) and st is not sel[0]:
+                tg = n.targets if isinstance(n, ast.Assign) else [n.target]
+                if any(isinstance(t, ast.Name) and t.id in names for t in tg):
+                    fail(n, "a range-checked parameter of cdm is rebound")
+    calls = [n for st in body for n in ast.walk(st) if isinstance(n, ast.Call)
+             and ast.unparse(n.func) in ("run_cdm_parallel", "run_cdm_serial")]
+    if sorted(ast.unparse(c.func) for c in calls) != ["run_cdm_parallel", "run_cdm_serial"]:
+        fail(fn, "cdm must call run_cdm_parallel and run_cdm_serial once each")
+    for c in calls:
+        kw = {k.arg: ast.unparse(k.value) for k in c.keywords}
+        want = dict(vg="max_electron_volume", t="transfer_period", fwc=var, beta="beta")
+        if c.args or any(kw.get(k) != v for k, v in want.items()):
+            fail(c, "run_cdm_* must receive vg, t, fwc, beta as checked")
+    g = " && ".join(f"({x})" for x in guards) if guards else "true"
+    return (f"Definition src_cdm_fwc_select (arg char : option Q) : option Q := {sel_t}.\n"
+            f"Definition src_cdm_guard (vg beta fwc t : Q) : bool := {g}.\n")
+
+
 def translate(repo: Path) -> str:
-    return HEADER + PRE + tr_ipc(repo) + tr_collect(repo) + tr_full_well(repo) + tr_qe(repo)
+    return (HEADER + PRE + tr_ipc(repo) + tr_collect(repo) + tr_full_well(repo) + tr_qe(repo) + tr_fw_sources(repo)
+            + tr_qe_sources(repo) + tr_qe_map(repo) + tr_cdm_guard(repo))
 
 
 FALLBACK = (HEADER + PRE +
@@ -198,4 +458,12 @@ FALLBACK = (HEADER + PRE +
             "k11 := (1 - (4 * (c + d))); k12 := (c + a); k20 := d; k21 := (c - a); k22 := d |}.\n"
             "Definition src_collect (pixel charge : Q) : Q := (pixel + charge).\n"
             "Definition src_full_well (c x : Q) : Q := if Qlt_le_dec c x then c else x.\n"
-            "Definition src_qe_off (q p : Q) : Q := (p * q).\n")
+            "Definition src_qe_off (q p : Q) : Q := (p * q).\n"
+            "Definition src_fw_select (arg char : option Q) : option Q := match arg with None => char | Some a => Some a end.\n"
+            "Definition src_fw_raises (c : Q) : bool := (Qltb c 0).\n"
+            "Definition src_qe_select (arg char : option Q) : option Q := match arg with None => char | Some a => Some a end.\n"
+            "Definition src_qe_range (q : Q) : bool := Qle_bool 0 q && Qle_bool q 1.\n"
+            "Definition src_qe_map_range (q : Q) : bool := (Qle_bool 0 q) && (Qle_bool q 1).\n"
+            "Definition src_cdm_fwc_select (arg char : option Q) : option Q := match arg with None => char | Some a => Some a end.\n"
+            "Definition src_cdm_guard (vg beta fwc t : Q) : bool := (Qltb 0 vg && Qle_bool vg 1) && (Qle_bool 0 beta && Qle_bool beta 1) "
+            "&& (Qltb 0 fwc && Qle_bool fwc 10000000) && (Qle_bool 0 t && Qle_bool t 10).\n")
